@@ -66,6 +66,32 @@ def gen_case(rnd, tier, index):
     ops = c01.gen_ops(rnd, spec, cfg, n_ops,
                       restart_rate=rnd.choice((0, 0.05, 0.1)),
                       set_rate=rnd.choice((0.15, 0.3)))
+    if rnd.random() < 0.15:
+        # a value assigned over a formula (the formula is kept), which is later calculated
+        # again - set_value(cell, None) or recalculate() - and from then on reads its
+        # precedents as before
+        dag = wbgen.Dag(spec)
+        forms = [a for a in dag.formulas() if 'cse' not in dag.cell[a] and dag.prec.get(a) and
+                 not is_computed(dag.cell[a])]
+        ops = [o for o in ops if o['op'] != 'restart']
+        if forms and ops:
+            x = rnd.choice(forms)
+            at = rnd.randint(0, len(ops))
+            seq = [{'op': 'eval', 'a': x, 'form': 'cell'},
+                   {'op': 'set', 'a': x, 'v': rnd.choice((5, 0, -2.5, 'ovr')), 'over_formula': True}]
+            if rnd.random() < 0.5:
+                seq.append({'op': 'eval', 'a': rnd.choice(sorted(dag.descendants(x)) or [x]),
+                            'form': 'cell'})
+            seq.append({'op': 'set', 'a': x, 'v': None, 'over_formula': True, 'unset': True}
+                       if rnd.random() < 0.6 else {'op': 'recalc'})
+            inputs = [a for a in dag.ancestors(x) if not wbgen.is_formula_cell(dag.cell[a]) and
+                      a not in spec.get('pinned', ())]
+            seq.append({'op': 'eval', 'a': x, 'form': 'cell'})
+            if inputs:
+                a = rnd.choice(sorted(inputs))
+                seq.append({'op': 'set', 'a': a, 'v': c01.draw_write(rnd, dag.cell[a].get('v'))})
+                seq.append({'op': 'eval', 'a': x, 'form': 'cell'})
+            ops[at:at] = seq
     if cfg.get('origin') in ('nodata', 'xlsx') and rnd.random() < 0.15:
         # fault: a graph build that fails half way (a reference that cannot be resolved); the
         # model is used on, every other formula still has to be wired to what it reads
